@@ -3,8 +3,8 @@ package main
 import (
 	"context"
 	"crypto/sha1"
-	"encoding/hex"
 	"database/sql"
+	"encoding/hex"
 	"encoding/json"
 	"errors"
 	"flag"
@@ -94,12 +94,12 @@ type genCfg struct {
 }
 
 type gen struct {
-	pool   [][2]string // (key, value) pairs that were put into param / meta maps
-	r      *rand.Rand
-	cfg    genCfg
-	known  []string
-	now    time.Time
-	stats  map[string]int
+	pool  [][2]string // (key, value) pairs that were put into param / meta maps
+	r     *rand.Rand
+	cfg   genCfg
+	known []string
+	now   time.Time
+	stats map[string]int
 }
 
 var zones = []*time.Location{time.UTC, time.UTC, time.FixedZone("p9", 9*3600), time.FixedZone("m5", -5*3600)}
